@@ -52,7 +52,8 @@ ASSUMPTIONS = [
 RANK = {"LIKELY_SAFE": 0, "POSSIBLY_UNSAFE": 1, "SUSPICIOUS": 2, "LIKELY_UNSAFE": 3,
         "LIKELY_OVERTLY_MALICIOUS": 4, "OVERTLY_MALICIOUS": 5}  # fmt: skip
 THRESHOLDS = tuple(RANK)
-STREAMS = ("bytes", "bytesio", "file", "raw_seekable", "non_seekable", "flip", "file_offset", "mmap_offset")
+STREAMS = ("bytes", "bytesio", "file", "raw_seekable", "non_seekable", "flip", "file_offset", "mmap_offset",
+           "file_rewritten")
 PATHS = ("loader", "hook", "hook_threshold", "context", "hook_after_context", "hook_after_lenient_context", "outer_context_after_inner",
          "context_after_ml_cycle")
 FAULTS = (None, "ValueError", "KeyError", "AttributeError", "RecursionError", "MemoryError")
@@ -97,6 +98,19 @@ KWARGS = ({}, {}, {}, {"encoding": "latin1"}, {"encoding": "bytes"}, {"fix_impor
 FLOORS = {1: 3, 2: 3, 3: 3, 4: 4, 5: 4, 6: 5, 7: 5, 9: 3, 10: 3, 11: 3, 12: 3, 13: 3, 14: 3}
 
 
+_STRUCTURAL = ("pop from empty list", "could not find MARK", "Memo value not found", "odd number of items",
+               "stack underflow", "list index out of range")  # fmt: skip
+
+
+def _structurally_invalid(data):
+    from vlib.refvm import run_ref
+
+    if not _complete(data):
+        return False
+    r = run_ref(data)
+    return (not r.ok) and any(k in str(r.error) for k in _STRUCTURAL)
+
+
 def _complete(data):
     """does `data` start with a complete pickle (ends in STOP, every opcode well formed)?"""
     import pickletools
@@ -124,6 +138,11 @@ def floor_for(data):
 
 
 ANALYSIS_RAISES = (
+    b"(cverif_sink\nsink\nd.",  # DICT with an odd number of items, after a global was named
+    b"(ccolorsys\nrgb_to_hls\nd.",
+    b"(cverif_sink\nsink\n(S'odd'\ntRNu.",  # SETITEMS with an odd number of items, after a call
+    b"cverif_sink\nsink\n(S'memo'\ntRh\x07.",  # unset memo key after a call
+    b"cverif_sink\nsink\n)R00.",  # stack underflow after a call
     b"",
     b"garbage!",
     b"0.",  # stack underflow
@@ -290,6 +309,27 @@ def make_stream(kind, data, scratch, flip_to=None):
             f.write(data)
         fh = open(path, "rb")
         return fh, fh
+    if kind == "file_rewritten":
+        # the same path held a benign pickle of the same length, was loaded through the checked
+        # loader, and was then overwritten in place (same inode, size and timestamps)
+        import fickling
+
+        path = os.path.join(scratch.path, "c02-rewritten.pkl")
+        with open(path, "wb") as f:
+            # (shorter than any text pickle: pad a NONE pickle with POP/NONE pairs)
+            first = benign_same_length(len(data)) if len(data) >= 6 else (b"N" + b"0N" * len(data))[: max(len(data) - 1, 1)] + b"."
+            f.write(first if len(first) == len(data) else data)
+        st0 = os.stat(path)
+        try:
+            with open(path, "rb") as f:
+                fickling.load(f)
+        except Exception:  # noqa: BLE001
+            pass
+        with open(path, "r+b") as f:
+            f.write(data)
+        os.utime(path, ns=(st0.st_atime_ns, st0.st_mtime_ns))
+        fh = open(path, "rb")
+        return fh, fh
     if kind in ("file_offset", "mmap_offset"):
         # the pickle is the second record of a file; the stream is handed over positioned on it
         import mmap
@@ -359,7 +399,10 @@ def run_case(data, stream_kind, threshold, path, fault, scratch, flip_to=None, k
         with mon.watch() as events:
             try:
                 if path == "loader":
-                    r = fickling.load(src, max_acceptable_severity=T, **kwargs)
+                    if len(data) % 2 and not kwargs:
+                        r = fickling.load(src, T)  # the documented second parameter, positionally
+                    else:
+                        r = fickling.load(src, max_acceptable_severity=T, **kwargs)
                 elif path == "hook":
                     fickling.always_check_safety()
                     r = pk.load(src, **kwargs)
@@ -446,6 +489,15 @@ def run_case(data, stream_kind, threshold, path, fault, scratch, flip_to=None, k
             return fail(f"did not return ({outcome[0]}) but resolved globals: {evs!r}")
         if imported:
             return fail(f"did not return ({outcome[0]}) but imported {imported}, named by the pickle")
+    if flip_to is None and _structurally_invalid(data):
+        # a program the VM rejects for a reason that needs no knowledge of types (stack underflow,
+        # missing MARK, unset memo key, odd item count): no unpickler can return from it
+        if outcome[0] == "returned":
+            return fail(f"returned {outcome[1]!r} for a program the pickle VM rejects structurally")
+        if log:
+            return fail(f"the VM rejects this program structurally ({outcome[0]}: {outcome[1]!r}) but the sink ran: {log!r}")
+        if evs or imported:
+            return fail(f"the VM rejects this program structurally ({outcome[0]}) but globals were resolved: {evs or imported!r}")
     if not _complete(data) and flip_to is None:
         # bytes without a terminating STOP (or not a pickle at all) can never be returned by any
         # unpickler: every outcome is a non-returning one, whatever the analysis thought of them
